@@ -869,3 +869,83 @@ def shape_is(ex, a, rows, columns):
 @spec
 def is_arraylike(ex, v):
     return isinstance(v, (SeqV, Arr2V))
+
+
+# ----------------------------------------------------------------------------- worklist operations (C01 / C03 / C07)
+
+
+@spec
+def device_pos(ex, wl, L, w):
+    """device-specific well number: 1 + column_index*rows + row_index (EVO counts the virtual rows of a trough);
+    on the Fluent a trough column is numbered 1 + column_index whatever the virtual row"""
+    w = ops.to_abstract(w)
+    nrows = lib.b_len(ex, L.fields["row_ids"])
+    col = ops.binop(ex, "-", ops.lift_raw(w.c), 1)
+    full = ops.binop(ex, "+", ops.binop(ex, "+", 1, ops.binop(ex, "*", col, nrows)), ops.lift_raw(w.r))
+    if wl.cls == "FluentWorklist" and L.fields.get("virtual_rows") is not None:
+        return ops.binop(ex, "+", 1, col)
+    return full
+
+
+@spec
+def kw(ex, kwargs, name, default):
+    """value of a pass-through keyword argument"""
+    for k, v in kwargs.items:
+        if k == name:
+            return v
+    return default
+
+
+@spec
+def ad_record(ex, kind, wl, L, w, v, kwargs):
+    """the A / D record for moving volume v at well w of labware L with the given pass-through keyword arguments"""
+    from .values import RecV, EnumV
+
+    g = lambda n, d: kw(ex, kwargs, n, d)  # noqa: E731
+    tip = g("tip", EnumV("Tip", -1, "Any"))
+    return RecV(kind, [L.fields["name"], g("rack_id", ""), g("rack_type", ""), fmt_int(ex, device_pos(ex, wl, L, w)), g("tube_id", ""),
+                       fmt_volume(ex, lib.to_float(ex, v)), g("liquid_class", ""), "", tip_field(ex, tip), g("forced_rack_type", "")])
+
+
+@spec
+def comment_records(ex, label):
+    """records a (single-line) label contributes"""
+    if label is None or (isinstance(label, str) and label == ""):
+        return SeqV("list")
+    st = lib.str_method(ex, label, "strip", [], {}) if not isinstance(label, str) else label.strip()
+    rec = lib.join_str_parts(ex, ["C;", st])
+    c = ops.compare(ex, "==", st, "")
+    if isinstance(c, bool):
+        return SeqV("list") if c else SeqV.of("list", [rec])
+    return ops.ite(ex, unwrap_bool(c), SeqV("list"), SeqV.of("list", [rec]))
+
+
+@spec
+def is_prefix(ex, a, b):
+    """sequence a is a prefix of sequence b"""
+    na, nb = ops.seq_len(a), ops.seq_len(b)
+    i = z3.Int(ex.p.fresh_name("pf"))
+    e = zbool(unwrap_bool(ops.equals(ex, ops.seq_get(ex, a, Sym(i, "int")), ops.seq_get(ex, b, Sym(i, "int")))))
+    return mk_bool(z3.And(term(na, "int") <= term(nb, "int"), z3.ForAll([i], z3.Implies(z3.And(i >= 0, i < term(na, "int")), e))))
+
+
+@spec
+def arr_copy(ex, a):
+    return a.copy()
+
+
+@spec
+def concat_if(ex, n, cond, f):
+    """[f(i) for i in range(n) if cond(i)] for a concrete n (conditions may be symbolic)"""
+    if not isinstance(n, int):
+        raise Unsupported("concat_if over a symbolic range")
+    out = SeqV("list")
+    for i in range(n):
+        c = ex.truth(_call(ex, cond, i))
+        item = SeqV.of("list", [_call(ex, f, i)])
+        if isinstance(c, bool):
+            if c:
+                out = ops.seq_concat(ex, out, item)
+        else:
+            out = ops.seq_concat(ex, out, ops.ite(ex, c, item, SeqV("list")))
+    return out
